@@ -28,10 +28,10 @@ theorem quote_tokens (mn : Int) (d : Nat) (inner : List BRule) (s : BState) (lin
         s'.tokens = s.tokens ++ ([openT.setMap (some (line, s4.line))] ++ innerToks ++ [closeT])) ∧
       openT.nesting = 1 ∧ openT.level = s.level ∧ openT.type = "blockquote_open" ∧
       closeT.nesting = -1 ∧ closeT.level = s4.level - 1 ∧ closeT.type = "blockquote_close" ∧
-      s'.line = s4.line ∧ openT.map = some (line, 0) ∧ closeT.map = none := by
-  obtain ⟨next, s2, s4, ht2, hv2, hlen3, hend3, hLv3, hrun, htok, hline⟩ := h
+      s'.line = s4.line ∧ openT.map = some (line, 0) ∧ closeT.map = none ∧ SufLines s.lines s3.lines := by
+  obtain ⟨next, s2, s4, ht2, hv2, hlen3, hend3, hLv3, hrun, htok, hline, hsuf⟩ := h
   refine ⟨_, s4, next, pushedTok { s2 with blkIndent := 0 } "blockquote_open" "blockquote" 1 (some (line, 0)) none "" ">" "",
-    pushedTok s4 "blockquote_close" "blockquote" (-1) none none "" ">" "", ?_, hlen3, hend3, hLv3, hrun, ?_, ?_, rfl, ?_, rfl, rfl, ?_, rfl, hline, rfl, rfl⟩
+    pushedTok s4 "blockquote_close" "blockquote" (-1) none none "" ">" "", ?_, hlen3, hend3, hLv3, hrun, ?_, ?_, rfl, ?_, rfl, rfl, ?_, rfl, hline, rfl, rfl, hsuf⟩
   · rw [pushFull_level_open]; simp [hv2]
   · rw [pushFull_tokens]; simp [ht2]
   · intro innerToks h4
@@ -48,7 +48,7 @@ structure QuoteWrap (S : BState → List Tok → Prop) : Prop where
   closed : FrameClosedS S
   wrap : ∀ (s s3 s4 : BState) (line : Nat) (openT closeT : Tok) (segs : List (List Tok)),
       s3.level = s.level + 1 → s3.FrameEq s4 → openT.nesting = 1 → openT.level = s.level → openT.type = "blockquote_open" →
-      closeT.nesting = -1 → closeT.level = s4.level - 1 → closeT.type = "blockquote_close" →
+      closeT.nesting = -1 → closeT.level = s4.level - 1 → closeT.type = "blockquote_close" → SufLines s.lines s3.lines →
       (∀ g ∈ segs, S s3 g) → S s ([openT.setMap (some (line, s4.line))] ++ segs.flatten ++ [closeT])
 
 /-- the leaf rules of the chains -/
@@ -93,12 +93,12 @@ theorem qChain_seg (S : BState → List Tok → Prop) (hw : QuoteWrap S) (c : Mi
         rcases key s line endLine hc with h' | ⟨s'', h', _, _, _, hrunq⟩
         · rw [h'] at h; cases h
         · rw [h'] at h; cases h
-          obtain ⟨s3, s4, next, openT, closeT, hl3, hlen3, hend3, hLv3, hrun, htok3, htok, ho1, ho2, ho3, hc1, hc2, hc3, _, _, _⟩ :=
+          obtain ⟨s3, s4, next, openT, closeT, hl3, hlen3, hend3, hLv3, hrun, htok3, htok, ho1, ho2, ho3, hc1, hc2, hc3, _, _, _, hsuf⟩ :=
             quote_tokens mn d _ s line s' hrunq
           obtain ⟨segs, hs4, hS⟩ := ih.2 s3 line next s4 hlen3 hend3 hLv3 hrun
           obtain ⟨s4', hrun', hfr4, _⟩ := (qChain_ok c ws mn d).2 s3 line next hlen3 hend3 hLv3
           rw [hrun] at hrun'; cases hrun'
-          exact ⟨_, htok _ hs4, hw.wrap s s3 s4 line openT closeT segs hl3 hfr4 ho1 ho2 ho3 hc1 hc2 hc3 hS⟩
+          exact ⟨_, htok _ hs4, hw.wrap s s3 s4 line openT closeT segs hl3 hfr4 ho1 ho2 ho3 hc1 hc2 hc3 hsuf hS⟩
       · intro s line endLine s' hc h
         rcases key s line endLine hc with h' | ⟨s'', h', _⟩
         · rw [h'] at h; cases h; rfl
@@ -149,7 +149,7 @@ theorem balancedFrom_wrap (o c : Tok) (mid : List Tok) (ho : o.nesting = 1) (hc 
 
 theorem wellSegS_wrap : QuoteWrap WellSegS := by
   refine ⟨wellSegS_closed, ?_⟩
-  intro s s3 s4 line openT closeT segs hl3 hfr ho1 ho2 _ hc1 hc2 _ hS
+  intro s s3 s4 line openT closeT segs hl3 hfr ho1 ho2 _ hc1 hc2 _ _ hS
   have hmid : WellSeg (s.level + 1) segs.flatten := by
     have := wellSegs_flatten s3.level segs (fun g hg => hS g hg)
     rw [hl3] at this; exact this
